@@ -87,6 +87,12 @@ func (m MetavarMatcher) Match(got reflect.Value, d data.Data, r Region) (data.Da
 		return d, false
 	}
 
+	// A metavariable stands for some code. An absent optional identifier,
+	// such as the label of a bare "break", is not an identifier.
+	if got.Kind() == reflect.Ptr && got.IsNil() {
+		return d, false
+	}
+
 	key := metavarKey(m.Name)
 
 	var md metavarData
